@@ -41,6 +41,9 @@ def fill(check: Check, tier: str, floors: dict | None = None) -> tuple[Repo, opc
             check.samples.append({"rule": rule, "construct": construct, "obligation": what, "verdict": "ok" if ok else "VIOLATED"})
             seen += 1
     check.samples.extend(rep.samples[:6])
-    for unit, minimum in (floors or {}).items():
-        check.floor(unit, minimum)
+    for d in rep.deferred:
+        check.defer_error(d)
+    if not rep.deferred:  # the floors guard against vacuity; a run that is already undecided needs no second reason
+        for unit, minimum in (floors or {}).items():
+            check.floor(unit, minimum)
     return repo, rep
